@@ -580,7 +580,16 @@ func (t *goType) getValue(rv reflect.Value) any {
 		}
 		return t.E.getValue(rv.Elem())
 	case "iface":
-		return "iface"
+		// the dynamic value, as (type, value) like the generator wrote it; a nil interface is its own value
+		if rv.IsNil() {
+			return "nil-interface"
+		}
+		dv := rv.Elem()
+		dt := goTypeOf(dv.Type())
+		if dt == nil {
+			return "iface:" + dv.Type().String()
+		}
+		return map[string]any{"ty": dt, "v": dt.getValue(dv)}
 	case "struct":
 		out := make([]any, len(t.Fs))
 		for i := range t.Fs {
@@ -622,7 +631,13 @@ func randGoType(rng *rand.Rand, depth int) *goType {
 	case 3:
 		return &goType{K: "map", E: randGoType(rng, depth-1)}
 	case 4:
-		return &goType{K: "ptr", E: randGoType(rng, depth-1)}
+		e := randGoType(rng, depth-1)
+		for e.K == "iface" { // *interface{} is not a documented destination
+			e = randGoType(rng, depth-1)
+		}
+		return &goType{K: "ptr", E: e}
+	case 8:
+		return &goType{K: "iface"}
 	case 5, 6, 7:
 		t := &goType{K: "struct"}
 		n := 1 + rng.Intn(4)
@@ -655,6 +670,72 @@ func randGoType(rng *rand.Rand, depth int) *goType {
 
 var embSeq int
 
+// goTypeOf maps the dynamic Go types the decoder stores in interface values back to type expressions
+func goTypeOf(rt reflect.Type) *goType {
+	switch rt.Kind() {
+	case reflect.Int8:
+		return &goType{K: "i8"}
+	case reflect.Int16:
+		return &goType{K: "i16"}
+	case reflect.Int32:
+		return &goType{K: "i32"}
+	case reflect.Int64:
+		return &goType{K: "i64"}
+	case reflect.Uint8:
+		return &goType{K: "u8"}
+	case reflect.Float32:
+		return &goType{K: "f32"}
+	case reflect.Float64:
+		return &goType{K: "f64"}
+	case reflect.String:
+		return &goType{K: "str"}
+	case reflect.Interface:
+		return &goType{K: "iface"}
+	case reflect.Slice:
+		if e := goTypeOf(rt.Elem()); e != nil {
+			return &goType{K: "slice", E: e}
+		}
+	case reflect.Map:
+		if rt.Key().Kind() == reflect.String {
+			if e := goTypeOf(rt.Elem()); e != nil {
+				return &goType{K: "map", E: e}
+			}
+		}
+	}
+	return nil
+}
+
+// randIface: a dynamic value of one of the types the decoder itself produces for an interface destination
+// (int8..int64, float32/64, string, []byte, []int32, []int64, []any, map[string]any), so that a round trip can be exact
+func randIface(rng *rand.Rand, depth int) any {
+	var dt *goType
+	switch r := rng.Intn(12); {
+	case r < 5 || depth <= 0:
+		dt = &goType{K: []string{"i8", "i16", "i32", "i64", "f32", "f64", "str"}[rng.Intn(7)]}
+	case r < 8:
+		dt = &goType{K: "slice", E: &goType{K: []string{"u8", "i32", "i64"}[rng.Intn(3)]}}
+	case r < 10:
+		n := []int{0, 0, 1, 3}[rng.Intn(4)] // []any, empty as often as not: an empty list must come back as an empty list
+		vals := make([]any, n)
+		// a list has one element type: all elements of one dynamic kind
+		k := []string{"i16", "str", "f64", "f32", "i8", "i32", "i64"}[rng.Intn(7)]
+		for i := range vals {
+			et := &goType{K: k}
+			vals[i] = map[string]any{"ty": et, "v": randGoValue(rng, et)}
+		}
+		return map[string]any{"ty": &goType{K: "slice", E: &goType{K: "iface"}}, "v": vals}
+	default:
+		n := rng.Intn(3)
+		keys := []string{"a", "list", "z"}[:n]
+		vals := []any{}
+		for _, k := range keys {
+			vals = append(vals, map[string]any{"k": toAbsBytes([]byte(k)), "v": randIface(rng, depth-1)})
+		}
+		return map[string]any{"ty": &goType{K: "map", E: &goType{K: "iface"}}, "v": vals}
+	}
+	return map[string]any{"ty": dt, "v": randGoValue(rng, dt)}
+}
+
 func randEmbedded(rng *rand.Rand, levels int, seq int) *goType {
 	t := &goType{K: "struct"}
 	n := 1 + rng.Intn(3)
@@ -683,6 +764,21 @@ func randGoValue(rng *rand.Rand, t *goType) any {
 		}
 		return toAbsBytes(b)
 	case "slice", "array":
+		if t.E.K == "iface" { // NBT lists are homogeneous: every element gets the same dynamic type
+			n := []int{0, 1, 2, 4}[rng.Intn(4)]
+			if t.K == "array" {
+				n = t.N
+				if n == 0 {
+					n = 2
+				}
+			}
+			et := &goType{K: []string{"i16", "str", "f64", "f32", "i8", "i32", "i64"}[rng.Intn(7)]}
+			out := make([]any, n)
+			for i := range out {
+				out[i] = map[string]any{"ty": et, "v": randGoValue(rng, et)}
+			}
+			return out
+		}
 		n := []int{0, 1, 2, 4}[rng.Intn(4)]
 		if t.K == "array" {
 			n = t.N
@@ -708,6 +804,8 @@ func randGoValue(rng *rand.Rand, t *goType) any {
 		return a
 	case "ptr":
 		return randGoValue(rng, t.E)
+	case "iface":
+		return randIface(rng, 2)
 	case "struct":
 		a := make([]any, len(t.Fs))
 		for i := range t.Fs {
